@@ -200,6 +200,8 @@ impl StorageEngine {
             )));
         }
 
+        #[cfg(inputlayer_verif)]
+        crate::verif_hooks::sched_point("se:create:after_dropping_check");
         // Atomic check-and-insert to prevent TOCTOU race
         use dashmap::mapref::entry::Entry;
         let entry = self.knowledge_graphs.entry(name.to_string());
@@ -255,12 +257,18 @@ impl StorageEngine {
             return Err(StorageError::KnowledgeGraphNotFound(name.to_string()));
         }
 
+        #[cfg(inputlayer_verif)]
+        crate::verif_hooks::sched_point("se:drop:after_exists_check");
         // Add to tombstone BEFORE removing from DashMap (ordering matters for RC-2)
         self.dropping_kgs.write().insert(name.to_string());
 
+        #[cfg(inputlayer_verif)]
+        crate::verif_hooks::sched_point("se:drop:after_tombstone");
         // Remove from in-memory DashMap (instant)
         self.knowledge_graphs.remove(name);
 
+        #[cfg(inputlayer_verif)]
+        crate::verif_hooks::sched_point("se:drop:after_map_remove");
         // Save metadata JSON (small file write, fast)
         self.save_knowledge_graphs_metadata()?;
 
@@ -278,12 +286,16 @@ impl StorageEngine {
     /// Deletes persist shards and data directory, then removes tombstone.
     pub fn finish_drop_knowledge_graph(&self, cleanup: KgDropCleanup) {
         let start = Instant::now();
+        #[cfg(inputlayer_verif)]
+        crate::verif_hooks::sched_point("se:drop:finish_entry");
         let prefix = format!("{}:", cleanup.name);
         if let Ok(shards) = cleanup.persist.list_shards() {
             for shard in shards.iter().filter(|s| s.starts_with(&prefix)) {
                 let _ = cleanup.persist.delete_shard(shard);
             }
         }
+        #[cfg(inputlayer_verif)]
+        crate::verif_hooks::sched_point("se:drop:after_shards_deleted");
         if cleanup.data_dir.exists() {
             let _ = fs::remove_dir_all(&cleanup.data_dir);
             // Sync parent directory to ensure directory deletion is durable
@@ -293,6 +305,8 @@ impl StorageEngine {
                 }
             }
         }
+        #[cfg(inputlayer_verif)]
+        crate::verif_hooks::sched_point("se:drop:before_tombstone_remove");
         // Remove tombstone - name is now safe to reuse
         self.dropping_kgs.write().remove(&cleanup.name);
         let elapsed_ms = start.elapsed().as_millis() as u64;
@@ -465,6 +479,8 @@ impl StorageEngine {
             }
         }
 
+        #[cfg(inputlayer_verif)]
+        crate::verif_hooks::sched_point("se:insert:after_view_check");
         // Hold dropping_kgs read guard across the entire persist operation
         // to prevent a TOCTOU race where a KG drop starts between the check
         // and the persist call. The read lock allows concurrent inserts but
@@ -478,6 +494,8 @@ impl StorageEngine {
         let shard = format!("{kg}:{relation}");
         let time = self.logical_time.fetch_add(1, Ordering::SeqCst);
 
+        #[cfg(inputlayer_verif)]
+        crate::verif_hooks::sched_point("se:insert:after_time");
         // Create DD-style updates (+1 diff for insert)
         let updates: Vec<Update> = tuples
             .iter()
@@ -488,6 +506,8 @@ impl StorageEngine {
         let persist_start = Instant::now();
         self.persist.ensure_shard(&shard)?;
         self.persist.append(&shard, &updates)?;
+        #[cfg(inputlayer_verif)]
+        crate::verif_hooks::sched_point("se:insert:after_persist");
         let persist_ms = persist_start.elapsed().as_millis() as u64;
         info!(
             kg = %kg,
@@ -499,6 +519,8 @@ impl StorageEngine {
 
         // Release dropping_kgs guard before acquiring KG write lock
         drop(dropping_guard);
+        #[cfg(inputlayer_verif)]
+        crate::verif_hooks::sched_point("se:insert:before_kg_lock");
 
         // Update in-memory state
         let db = self
@@ -589,6 +611,8 @@ impl StorageEngine {
         let shard = format!("{kg}:{relation}");
         let time = self.logical_time.fetch_add(1, Ordering::SeqCst);
 
+        #[cfg(inputlayer_verif)]
+        crate::verif_hooks::sched_point("se:delete:after_time");
         // Create DD-style updates (-1 diff for delete)
         let updates: Vec<Update> = tuples
             .iter()
@@ -598,9 +622,13 @@ impl StorageEngine {
         // Persist first (durability guarantee via WAL + batches)
         self.persist.ensure_shard(&shard)?;
         self.persist.append(&shard, &updates)?;
+        #[cfg(inputlayer_verif)]
+        crate::verif_hooks::sched_point("se:delete:after_persist");
 
         // Release dropping_kgs guard before acquiring KG write lock
         drop(dropping_guard);
+        #[cfg(inputlayer_verif)]
+        crate::verif_hooks::sched_point("se:delete:before_kg_lock");
 
         // Update in-memory state
         let db = self
@@ -2120,6 +2148,8 @@ impl KnowledgeGraph {
     /// Without this, another thread could invalidate materializations between
     /// reading them and publishing the snapshot.
     fn publish_snapshot(&self) {
+        #[cfg(inputlayer_verif)]
+        crate::verif_hooks::sched_point("kg:publish");
         let snapshot_start = Instant::now();
         // Start with base relation data
         let mut input_tuples = self.engine.input_tuples.clone();
@@ -2265,6 +2295,8 @@ impl KnowledgeGraph {
         tuples: Vec<Tuple>,
         time: u64,
     ) -> StorageResult<(usize, usize)> {
+        #[cfg(inputlayer_verif)]
+        crate::verif_hooks::sched_point("kg:apply_insert");
         // Infer schema from first tuple if available
         let schema = if let Some(first) = tuples.first() {
             (0..first.arity())
@@ -2346,6 +2378,8 @@ impl KnowledgeGraph {
         tuples_to_remove: &[Tuple],
         time: u64,
     ) -> StorageResult<usize> {
+        #[cfg(inputlayer_verif)]
+        crate::verif_hooks::sched_point("kg:apply_delete");
         // Get schema from metadata (which has the correct arity from insert time)
         // Avoid using catalog which may not have the schema for base facts
         let schema = self.metadata.relations.get(relation).map_or_else(
